@@ -666,6 +666,10 @@ class RecurrencePlot(Cached):
         #  Get indices that would sort the distance matrix.
         #  sorted_neighbors[i,j] contains the index of the jth nearest neighbor
         #  of i. Sorting order is very important here!
+        #  Each state has to come first in its own row, also when other
+        #  states coincide with it (distance 0)
+        distance = distance.copy()
+        np.fill_diagonal(distance, -1.)
         sorted_neighbors = to_cy(distance.argsort(axis=1), NODE)
 
         n_time = distance.shape[0]
